@@ -299,13 +299,26 @@ def createTable (c : Client) (r : CreateTable) : Client × Out :=
     | none => (c, .err .validation none)
     | some t => ({ c with tables := ainsert r.table t c.tables }, .describe (describe t))
 
-/-- `UpdateTable`: attribute definitions of the created indexes are merged first, then
+/-- the key attributes of the table and of its indexes -/
+def keyAttrsInUse (t : Table) : List Bytes :=
+  [t.schema.hash, t.schema.range] ++ t.indexes.flatMap fun (_, ix) => [ix.schema.hash, ix.schema.range]
+
+/-- `Table.UpdateAttributeDefinition`: a definition that gives a key attribute in use another type -/
+def redefinesKeyAttr (t : Table) (defs : List (Bytes × Bytes)) : Bool :=
+  defs.any fun (n, ty) =>
+    !n.isEmpty && (keyAttrsInUse t).contains n &&
+      match alookup n t.attrs with
+      | some declared => declared != ty
+      | none => false
+
+/-- `UpdateTable`: attribute definitions of the created indexes are merged first (a definition that re-types a key attribute in use is rejected), then
     the changes are applied in order; a failing change stops the call, earlier ones stay -/
 def updateTable (c : Client) (name : Bytes) (changes : List IndexChange) : Client × Out :=
   match alookup name c.tables with
   | none => (c, .err .resourceNotFound none)
   | some t =>
     let defs := changes.flatMap fun ch => match ch with | .create d => defsOf d.key | .delete _ => []
+    if redefinesKeyAttr t defs then (c, .err .validation none) else
     let t := { t with attrs := defs.foldl (fun acc (n, ty) => ainsert n ty acc) t.attrs }
     let rec go (t : Table) : List IndexChange → Table × Option ErrClass
       | [] => (t, none)
